@@ -610,6 +610,7 @@ func (s *Sim) statusOf(lt *liveTask, st mesos.TaskState, reason mesos.TaskStatus
 		status.Reason = &r
 		m := mesos.SOURCE_MASTER
 		status.Source = &m
+		applyReconcileOmit(&status) // bareanswers.go
 	} else {
 		status.UUID = nextUUID()
 		if reason != 0 {
